@@ -1,11 +1,11 @@
 \* vacuity witness: the negated reachability claim must be VIOLATED
 SPECIFICATION Spec
-CONSTANTS Kinds = {"DE"}
+CONSTANTS Kinds = {"NM"}
   NP = 2
-  MaxGen = 3
+  MaxGen = 2
   MaxInst = 3
   MaxCells = 14
-  Settings <- QSettings
+  Settings <- PSettings
   Design = "ok"
   MaxOps = 4
 INVARIANT NeverResumedCompared
